@@ -3,9 +3,11 @@ import Aiorpcx.C01.Model
 import Aiorpcx.Facts.C01
 /-! Line-protocol driver for the C01 model: one history per line.
 
-    in : `<variant>:<proto> <op> <op> ...`
-         variant `R` (repaired, F07 applied) | `P` (pinned); the F4/F5 guards and the id counter
-         come from the generated facts.  proto `v1|v2|loose|auto`.
+    in : `<variant>:<proto>[:<start>] <op> <op> ...`
+         variant `R` (repaired, F07 applied) | `P` (pinned); the F4/F5 guards and the step of the
+         id counter come from the generated facts; `<start>` is the first id of the history as the
+         harness decoded it from the bytes the connection handed out (the facts' value if absent).
+         proto `v1|v2|loose|auto`.
          ops: `S1|S0` send_request ok/raising · `B<r|n>*:<0|1>` send_batch · `R<d>:<resp>` single
          response · `L<d>:<resp>,<resp>..` response batch · `O<d>` other message · `C` cancel all ·
          `X<t>` external cancel of ticket t.   `<d>` = `1|2|L` (what detect_protocol answers).
@@ -116,8 +118,15 @@ def showFut : Fut Nat → String
 def handle (line : String) : String :=
   match (line.splitOn " ").filter (· ≠ "") with
   | hd :: ops =>
-    match hd.splitOn ":" with
-    | [v, p] =>
+    let parts := hd.splitOn ":"
+    -- the first id of the history, as the harness read it from the wire (default: the facts')
+    let start? : Option Nat :=
+      match parts with
+      | [_, _] => some Facts.C01.idStart
+      | [_, _, s] => s.toNat?
+      | _ => none
+    match parts.take 2, start? with
+    | [v, p], some start =>
       let vr? : Option Variant :=
         if v == "R" then some (repaired Facts.C01.lookupGuarded Facts.C01.sortGuarded)
         else if v == "P" then some { pinned with lookupGuard := Facts.C01.lookupGuarded,
@@ -127,12 +136,12 @@ def handle (line : String) : String :=
         if p == "auto" then some none else (parseProto p).map some
       match vr?, proto?, ops.mapM parseOp with
       | some vr, some proto, some ops =>
-          let r := run vr Facts.C01.idStep (Conn.init proto Facts.C01.idStart) ops
+          let r := run vr Facts.C01.idStep (Conn.init proto start) ops
           String.intercalate " " (r.2.map showObs ++
             ["#" ++ toString r.1.pendingCount,
              if r.1.futs.isEmpty then "." else String.intercalate "," (r.1.futs.map showFut)])
       | _, _, _ => "bad-op"
-    | _ => "bad-op"
+    | _, _ => "bad-op"
   | _ => "bad-op"
 
 def main : IO Unit := Hex.lineLoop handle
